@@ -1,0 +1,42 @@
+// Copyright (C) 2023 Petter Nilsson. MIT License.
+
+#pragma once
+
+/**
+ * @file
+ * @brief Observation hooks for conformance harnesses.
+ *
+ * Everything in this file is compiled only with -DSMOOTH_VERIF. An event is a name and a short
+ * array of doubles; it is handed to a thread-local sink function if one is installed and dropped
+ * otherwise. Hooks never evaluate user functions and never change library state.
+ */
+
+#ifdef SMOOTH_VERIF
+
+#include "smooth/version.hpp"
+
+SMOOTH_BEGIN_NAMESPACE
+
+namespace verif {
+
+/// @brief Event sink: event name, values, number of values.
+using EventSink = void (*)(const char * name, const double * vals, int n);
+
+/// @brief Thread-local sink (nullptr: events are dropped).
+inline EventSink & event_sink()
+{
+  thread_local EventSink sink = nullptr;
+  return sink;
+}
+
+/// @brief Emit an event to the installed sink, if any.
+inline void emit_event(const char * name, const double * vals, int n)
+{
+  if (const EventSink sink = event_sink(); sink != nullptr) { sink(name, vals, n); }
+}
+
+}  // namespace verif
+
+SMOOTH_END_NAMESPACE
+
+#endif  // SMOOTH_VERIF
